@@ -21,7 +21,7 @@ ASSUMPTIONS = ["stub networks have a bounded horizontal receptive field (<= 8 px
                "posteriors within [0.999e-4, 1.001e-4] are undecided for the sparsity clause (float32 softmax)",
                "for over-long (truncated) lines only the start of the frame window is asserted"]
 
-CHARS = list("abcdefg")
+CHARS = list("abcdefg") + [chr(0x3b1 + i) for i in range(40)]
 H = 16
 PAD = 32
 
@@ -44,6 +44,19 @@ def strat():
         C = draw(st.integers(3, 8))
         bs = draw(st.sampled_from([1, 2, 4]))
         limit = 480 * bs
+        if draw(st.integers(0, 7)) == 0:
+            # a character table as large as the number of output frames of a (padded) batch: 24/32/40 classes and a list
+            # whose widest line needs 24/32/40 frames (crops of height 48 so that the table fits)
+            C = draw(st.sampled_from([24, 32, 40]))
+            lo, hi = {24: (1, 8), 32: (9, 16), 40: (17, 24)}[C]
+            n = draw(st.integers(1, 6))
+            crops = [dict(T=draw(st.integers(lo, hi)), tail=draw(st.integers(0, 3)), seed=draw(st.integers(0, 2 ** 31 - 1)),
+                          style=draw(st.sampled_from(["onehot", "graded"])))]
+            for _ in range(n - 1):
+                crops.append(dict(T=draw(st.integers(1, hi)), tail=draw(st.integers(0, 3)), seed=draw(st.integers(0, 2 ** 31 - 1)),
+                                  style=draw(st.sampled_from(["onehot", "graded"]))))
+            return dict(C=C, bs=bs, crops=crops, perm=list(draw(st.permutations(list(range(n))))), blur=0,
+                        mode=draw(st.sampled_from(["sparse", "dense", "tight", "nologits"])), other_bs=draw(st.sampled_from([1, 2, 3, 4])))
         pk = draw(st.integers(0, 39))
         narrow = False
         if pk == 0:             # more lines than any internal chunk: a list of a few hundred short lines
@@ -86,6 +99,10 @@ def strat():
     return case()
 
 
+def height_for(C):
+    return H if C <= H else 48
+
+
 def make_crop(spec, C):
     from vlib.stubs import paint_logits
     rs = np.random.RandomState(spec["seed"])
@@ -102,7 +119,7 @@ def make_crop(spec, C):
         table = rs.randint(0, 190, size=(T, C)).astype(np.uint8)
     for t, c in enumerate(path):
         table[t, c] = 255
-    img = paint_logits(table, H, spec["tail"])
+    img = paint_logits(table, height_for(C), spec["tail"])
     return img, path
 
 
@@ -114,7 +131,7 @@ def engine(C, blur, bs):
     key = (C, blur)
     if key not in _ENG:
         with contextlib.redirect_stdout(io.StringIO()):
-            _ENG[key] = make_pytorch_engine(CHARS[:C - 1], H, blur)
+            _ENG[key] = make_pytorch_engine(CHARS[:C - 1], height_for(C), blur)
     e = _ENG[key]
     e.batch_size = bs
     e.max_input_horizontal_pixels = 480 * bs
@@ -383,8 +400,85 @@ def body_split(ctx, case):
         ctx.nontrivial(("split", repr(case)))
 
 
+# ---------------------------------------------------------------- an engine that has survived a failed call
+def strat_fault():
+    from hypothesis import strategies as st
+    crop = lambda lo, hi: st.fixed_dictionaries(dict(T=st.integers(lo, hi), tail=st.integers(0, 3), seed=st.integers(0, 2 ** 31 - 1),
+                                                     style=st.sampled_from(["onehot", "graded"])))
+
+    @st.composite
+    def case(draw):
+        bs = draw(st.sampled_from([2, 4, 8]))
+        limit = 480 * bs
+        first = draw(st.lists(crop(1, 40), min_size=2, max_size=5))
+        # afterwards: a line wider than half the engine maximum but inside it, next to ordinary ones
+        longT = draw(st.integers(limit // 8 + 4, (limit - PAD) // 4 - 1))
+        second = draw(st.lists(crop(1, 60), min_size=0, max_size=4)) + [dict(T=longT, tail=draw(st.integers(0, 3)), seed=draw(st.integers(0, 2 ** 31 - 1)), style="onehot")]
+        second = [second[i] for i in draw(st.permutations(list(range(len(second)))))]
+        return dict(C=draw(st.integers(3, 8)), bs=bs, first=first, second=second,
+                    fault=draw(st.sampled_from(["out_of_memory", "out_of_memory", "runtime_error", "memory_error"])),
+                    mode=draw(st.sampled_from(["sparse", "dense", "nologits"])))
+    return case()
+
+
+class FaultyOnce:
+    """the network fails once (on the first batch of at least two images) and works again afterwards"""
+
+    def __init__(self, model, fault):
+        self.model, self.fault, self.armed = model, fault, True
+
+    def __call__(self, *a, **kw):
+        if self.armed and a[0].shape[0] >= 2:
+            self.armed = False
+            if self.fault == "out_of_memory":
+                raise RuntimeError("CUDA out of memory. Tried to allocate 2.00 GiB (GPU 0; 7.79 GiB total capacity)")
+            if self.fault == "memory_error":
+                raise MemoryError("std::bad_alloc")
+            raise RuntimeError("cuDNN error: CUDNN_STATUS_EXECUTION_FAILED")
+        return self.model(*a, **kw)
+
+
+def body_fault(ctx, case):
+    """A call during which the network failed (transient device fault) may fail or recover - but the engine object that is
+    used again afterwards must treat the following lists exactly like an engine that never saw the fault."""
+    from vlib.stubs import make_pytorch_engine
+    C, bs, mode = case["C"], case["bs"], case["mode"]
+    desc = lambda: "case=%r" % (case,)
+    with contextlib.redirect_stdout(io.StringIO()):
+        eng = make_pytorch_engine(CHARS[:C - 1], height_for(C), 0, batch_size=bs)
+        fresh = make_pytorch_engine(CHARS[:C - 1], height_for(C), 0, batch_size=bs)
+    good = eng.model
+    eng.model = FaultyOnce(good, case["fault"])
+    first = [make_crop(s_, C)[0] for s_ in case["first"]]
+    try:
+        run(eng, first, mode)
+        ctx.event("faulty_call_recovered")
+    except BaseException:  # noqa: BLE001 - failing is allowed
+        ctx.event("faulty_call_failed")
+    ctx.check(not eng.model.armed, "FAULT_NOT_INJECTED", desc)
+    eng.model = good
+    made = [make_crop(s_, C) for s_ in case["second"]]
+    imgs = [m[0] for m in made]
+    got = ctx.must("process_lines_raises", run, eng, imgs, mode)
+    want = ctx.must("process_lines_raises", run, fresh, imgs, mode)
+    for i, (im, path) in enumerate(made):
+        info = lambda: "line %d width %d: engine after the fault %r window %r, engine without history %r window %r; " % (
+            i, im.shape[1], got[0][i], got[2][i], want[0][i], want[2][i]) + desc()
+        ctx.check(got[0][i] == want[0][i], "result_after_a_failed_call_differs_from_a_fresh_engines", info)
+        lst = lambda x: None if x is None else list(x)
+        ctx.check(lst(got[2][i]) == lst(want[2][i]), "window_after_a_failed_call_differs_from_a_fresh_engines", info)
+        if im.shape[1] + PAD <= 480 * bs:
+            ctx.check(got[0][i] == ref_collapse(path, C - 1), "transcription_not_of_this_image", info)
+        if mode != "nologits":
+            ctx.check(got[1][i] is not None and want[1][i] is not None and np.array_equal(dense_of(got[1][i]), dense_of(want[1][i])),
+                      "logits_after_a_failed_call_differ_from_a_fresh_engines", info)
+    ctx.event("fault:" + case["fault"])
+    ctx.nontrivial(("fault", repr(case)))
+
+
 UNITS = [
     Unit("process_lines", "given", body=body, strategy=strat, quick=250, thorough=5000, shards_quick=8),
     Unit("split_lines", "given", body=body_split, strategy=strat_split, quick=300, thorough=4000),
     Unit("embedding_id", "given", body=body_emb, strategy=strat_emb, quick=200, thorough=3000),
+    Unit("after_fault", "given", body=body_fault, strategy=strat_fault, quick=120, thorough=1500),
 ]
